@@ -117,7 +117,8 @@ def run_chunk(case: dict) -> dict:
                 if len(sub_examples) < 3:
                     sub_examples.append({"family": [sorted(s) for s in chosen],
                                          "inferred": gates.show_pt(pt)})
-    return {"status": "ok", "n": total, "events": n, "counts": counts, "fails": fails,
+    return {"status": "ok", "n": total, "events": n, "sample": bool(case.get("sample")),
+            "counts": counts, "fails": fails,
             "samples": samples, "depths": depth_seen, "sub": sub, "sub_examples": sub_examples}
 
 
@@ -132,6 +133,17 @@ def build_cases(tier: str, seed: int) -> list[dict]:
                           "rng_seed": f"c06-{seed}-{n}-{sl}",
                           "sub_rate": 0.1 if n <= 5 else 0.02,
                           "uuid_seed": f"{seed}-{n}-{sl}"})
+    if tier == "quick":
+        # a seeded sample of the 6-event trees (complete in the thorough tier) and the flat
+        # 7-event trees: inference cost and pseudo-log size grow with the number of parallel
+        # successors, so defects that need >= 6 of them must be reachable on every change
+        of = 90 * P
+        for i in range(P):
+            cases.append({"n": 6, "depth": 3, "slice": (seed * P + i) % of, "of": of,
+                          "rng_seed": f"c06-{seed}-6-{i}", "sub_rate": 0.0,
+                          "uuid_seed": f"{seed}-6-{i}", "sample": True})
+        cases.append({"n": 7, "depth": 1, "slice": 0, "of": 1, "rng_seed": f"c06-{seed}-7",
+                      "sub_rate": 0.0, "uuid_seed": f"{seed}-7", "sample": True})
     return cases
 
 
@@ -140,7 +152,8 @@ def main(tier: str, seed: int) -> int:
         "C06", tier, seed,
         rule="exhaustive: every labelled gate tree over 1..5 (thorough 1..6) distinct events, "
              "operators AND/OR/XOR alternating between levels, depth <=3, generated from set "
-             "partitions; input = the complete outcome family of the tree; plus an in-situ "
+             "partitions (quick: plus a seeded sample of ~300 six-event trees and the flat "
+             "seven-event trees); input = the complete outcome family of the tree; plus an in-situ "
              "soundness monitor on every calculate_logic_gates call made while the real "
              "pipeline learns corpus-63 / F_core / F_edge complete samples (event sets with "
              "loop and dummy events). distinct = distinct trees; trivial = the single-event "
@@ -166,7 +179,10 @@ def main(tier: str, seed: int) -> int:
             chk.note_inconclusive(f"worker: {r.get('status')} {r.get('detail')}")
             continue
         chk.evaluations += r["n"]
-        per_size[r["events"]] = per_size.get(r["events"], 0) + r["n"]
+        if r.get("sample"):
+            chk.count(f"sampled_trees_with_{r['events']}_events", r["n"])
+        else:
+            per_size[r["events"]] = per_size.get(r["events"], 0) + r["n"]
         for k, v in r["counts"].items():
             chk.count(k, v)
         for k, v in r["depths"].items():
